@@ -19,6 +19,12 @@ def render(kind, L, T):
         for i in range(1, n + 1):
             f["m%d.f90" % i] = "module m%d\n  use m%d\n  implicit none\n  integer :: v%d\nend module m%d\n" % (i, nxt(i), i, i)
         f["main.f90"] = "program main\n  use m1\n  implicit none\n  v1 = 1\n  print *, v%d\nend program main\n" % n
+    elif kind == "usemixed":
+        # a USE cycle that mixes plain and ONLY edges, entered from a scope outside the cycle
+        for i in range(1, n + 1):
+            only = ", only: v%d" % nxt(i) if i % 2 == 0 or n == 1 else ""
+            f["m%d.f90" % i] = "module m%d\n  use m%d%s\n  implicit none\n  integer :: v%d\nend module m%d\n" % (i, nxt(i), only, i, i)
+        f["main.f90"] = "program main\n  use m1\n  use m%d, only: v%d\n  implicit none\n  v1 = 1\n  print *, v%d\nend program main\n" % (n, n, n)
     elif kind == "extends":
         body = "module tm\n  implicit none\n"
         for i in range(1, n + 1):
